@@ -152,11 +152,13 @@ class Run(object):
             elif a == "SetAttacher":
                 who = e["who"]
                 obj = {"A": self.A, "B": self.B, "P": self.P, "none": None}[who]
+                self.holding = bool(e.get("late"))
                 try:
                     self.state.set_attacher(obj, self.reactor)
                 except RuntimeError:
                     pass       # refusal of a second, different attacher
                 self.sim.pump()
+                self.holding = False
             elif a == "NewStream":
                 s = e["s"]
                 self.cur_stream = s
